@@ -105,12 +105,23 @@ deriving Repr
 
 /-! ## solution -/
 
+/-- one commute leg of a clustered activity: the other end, the distance, the time interval -/
+structure CommuteLeg where
+  loc : Nat
+  dist : Int
+  start : Int
+  stop : Int
+deriving Repr
+
 structure Activity where
   jobId : String
   type : String
   tag : Option String
   loc : Option Nat              -- only present in stops with several activities
   time : Option (Int × Int)     -- idem
+  /-- vicinity clustering: how the activity was reached from / left towards the parking place -/
+  fwd : Option CommuteLeg := none
+  bwd : Option CommuteLeg := none
 deriving Repr
 
 structure Stop where
